@@ -476,11 +476,13 @@ fn digits_of(mut n: u128, base: u128, zeros: usize) -> (String, String) {
 
 fn lit_cases(n: u128, zeros: usize, neg: bool, lower: bool, out: &mut Vec<LitCase>) {
     // decimal
-    let text = format!("{}{}{}", if neg { "-" } else { "" }, "0".repeat(zeros), n);
+    let (dec_digits, dec_list) = digits_of(n, 10, zeros);
+    let text = format!("{}{}", if neg { "-" } else { "" }, dec_digits);
     let v = if neg { -(n as i128) } else { n as i128 };
     out.push(LitCase {
         text,
-        request: format!("({} {})", if neg { "expr.negdec" } else { "expr.dec" }, n),
+        // the model is asked with the digit string as written (leading zeros included)
+        request: format!("({} {})", if neg { "expr.negdecs" } else { "expr.decs" }, dec_list),
         expected: narrowest(v),
         class: if neg { "dec.neg" } else { "dec" },
     });
@@ -830,11 +832,7 @@ fn main() {
         rep.bump(&format!("literal.{}", c.class));
         let got = lit_string(&parsed);
         if got != c.expected {
-            let sig = if c.text == "-2147483648" || c.text == "-02147483648" {
-                "neg-literal:-2147483648".to_owned()
-            } else {
-                format!("literal:{}", c.class)
-            };
+            let sig = format!("literal:{}", c.class);
             rep.fail(Failure {
                 kind: Kind::ImplVsProperty,
                 signature: sig,
@@ -856,14 +854,14 @@ fn main() {
         }
     }
     rep.sample(J::s(format!("{} -> {}", lits[3 * 40000 + 1].text, lits[3 * 40000 + 1].expected)));
-    // the one value where folding does not give the narrowest type, stated explicitly
+    // the LONG minimum directly after a minus sign (F3c before its repair), stated explicitly
     {
         rep.case(Some("-2147483648".into()));
         let got = lit_string(&real_expression("-2147483648"));
         if got != "(long -2147483648)" {
             rep.fail(Failure {
                 kind: Kind::ImplVsProperty,
-                signature: "neg-literal:-2147483648".into(),
+                signature: "literal:dec.neg".into(),
                 input: "PRINT -2147483648".into(),
                 implementation: got,
                 expected: "(long -2147483648)".into(),
@@ -884,6 +882,15 @@ fn main() {
         ("3.141592653589793#", "(double-frac 3.141592653589793)"),
         ("2.0#", "(double 2)"),
         ("2.0", "(single 2.0)"),
+        // a minus sign directly followed by a number with a fraction: the negative literal of the same type
+        ("-.5", "(single -0.5)"),
+        ("-2147483648.0#", "(double -2147483648)"),
+        ("-2147483648.5#", "(double-frac -2147483648.5)"),
+        // a minus sign in front of something that is not a run of digits still negates the typed literal
+        ("--5", "(int 5)"),
+        ("--32768", "(long 32768)"),
+        ("--2147483648", "(double 2147483648)"),
+        ("-&H8000", "(long 32768)"),
     ] {
         rep.case(Some(text.to_owned()));
         rep.bump("literal.fraction");
